@@ -1,12 +1,12 @@
 from props import Prop, Stream, reg
 
 reg(Prop('C14', [
+    Stream('c14.rows', 20000, 600000, 'oracle', exhaustive="gimli's test_frame_instruction list over 4 version/section pairs x address sizes x formats x byte orders x vendors"),
     Stream('c14.factor', 20000, 1000000, 'model', exhaustive='every i8 data factor x offsets -20..20 x Offset/ValOffset/Cfa/CfaOffset + i32 and quotient boundaries; every u8 code factor x deltas 0..66 + u32 boundaries'),
     Stream('c14.advance', 10000, 500000, 'model', exhaustive='every u8 code factor x deltas around 0x3f/0x40, 0xff/0x100, 0xffff/0x10000, 0xffffff on/off alignment, two previous offsets, decreasing and equal offsets'),
     Stream('c14.insn', 10000, 500000, 'model', exhaustive='every CallFrameInstruction variant x 16 register boundaries x 29 i32 boundaries x 9 data factors; blobs of length 0,1,2,127,128,300'),
     Stream('c14.entry', 5000, 300000, 'model', exhaustive='versions 0..5 x sections x formats x address sizes 1,2,3,4,5,8,16 x 0..9 instruction bytes; all 256 DW_EH_PE bytes in personality/LSDA/FDE-address position; return registers 0..300'),
     Stream('c14.table', 20000, 600000, 'model'),
-    Stream('c14.rows', 20000, 600000, 'oracle', exhaustive="gimli's test_frame_instruction list over 4 version/section pairs x address sizes x formats x byte orders x vendors"),
     Stream('c14.ehra', 1, 1, 'oracle'),
     Stream('c14.f_pad64', 1, 1, 'oracle'),
     Stream('c14.f_lsda', 1, 1, 'oracle'),
